@@ -95,6 +95,6 @@ theorem extract_delivers (env : Env) (fs : FS) (how : Extract) (cache : Path) (s
     ((run env (extractUnchecked how cache sri dest) fs).2.1).get dest = some (.file b) := by
   unfold extractUnchecked
   rw [hc]
-  cases how <;> simp [run, call, exec, hfile, hread, hparent, hfree, FS.put, hre]
+  cases how <;> simp [run, call, exec, copyTo, hfile, hread, hparent, hfree, FS.put, hre]
 
 end Cacache.C18
